@@ -261,11 +261,8 @@ StageSubMap(c, k, v, meta, eager, nkp, search) ==
             ELSE Keep(sv),
             FALSE >>
     ELSE IF sm = E THEN << sk, Keep(sv), FALSE >>
-    ELSE IF sm = OA THEN
-         << sk,
-            IF sv.t = "arr" THEN Arr([e \in 1..Len(sv.it) |-> redactPipelineStage(c, sv.it[e], eager, nkp, search)])
-            ELSE Keep(sv),
-            FALSE >>
+    ELSE IF sm = OA /\ sv.t = "arr" THEN    \* (a single operand without the array: redacted like any other value, below)
+         << sk, Arr([e \in 1..Len(sv.it) |-> redactPipelineStage(c, sv.it[e], eager, nkp, search)]), FALSE >>
     ELSE IF sm = P THEN
          << sk,
             IF sv.t = "arr" THEN redactArrayValues(c, sv, eager, search, isRedactableFieldPatternInArray(c, sv), nkp)
@@ -315,11 +312,8 @@ redactPipelineStage(c, stage, eager, kp, search) ==
                                    ELSE << v.kv[j][1], Keep(v.kv[j][2]), FALSE >>])
               [] OTHER       -> Keep(v),
             hk >>
-    ELSE IF meta = OA THEN
-         << k,
-            IF v.t = "arr" THEN Arr([e \in 1..Len(v.it) |-> redactPipelineStage(c, v.it[e], eager, nkp, search)])
-            ELSE Keep(v),
-            hk >>
+    ELSE IF meta = OA /\ v.t = "arr" THEN
+         << k, Arr([e \in 1..Len(v.it) |-> redactPipelineStage(c, v.it[e], eager, nkp, search)]), hk >>
     ELSE IF meta.tag = "tab" /\ v.t = "obj" THEN << k, StageSubMap(c, k, v, meta, eager, nkp, search), hk >>
     ELSE << k, StageGeneric(c, v, eager, nkp, search), hk >>])
 
